@@ -1471,5 +1471,28 @@ pub fn gen_wide(rng: &mut Rng, o: &WideOpts) -> WProgram {
         placed[pick] = true;
         order.push(pick);
     }
-    WProgram { items: order.into_iter().map(|i| nodes[i].item.clone()).collect() }
+    // two odd edits may have added the same definition twice: keep the first (a redefinition is a front-end error that
+    // has nothing to do with pipelines)
+    let mut items: Vec<WItem> = Vec::new();
+    for i in order {
+        if let WItem::Func(f) = &nodes[i].item {
+            let dup = items.iter().any(|it| match it {
+                WItem::Func(g) => {
+                    g.name == f.name
+                        && g.shape == f.shape
+                        && g.flags.contains('d') == f.flags.contains('d')
+                        && g.flags.contains('N') == f.flags.contains('N')
+                        && g.flags.contains('M') == f.flags.contains('M')
+                        && !(g.flags.contains('D') && f.flags.contains('E'))
+                        && !(g.flags.contains('E') && f.flags.contains('D'))
+                }
+                _ => false,
+            });
+            if dup {
+                continue;
+            }
+        }
+        items.push(nodes[i].item.clone());
+    }
+    WProgram { items }
 }
